@@ -103,10 +103,22 @@ def r2_synthesised_names_bound(ctx):
         ctx.ob(f"{rc.key}:binds:{kw}", rc.loc(st) if st is not None else rc.loc(), f"the name the rewriter emits for `{kw}` is bound in the rewritten method's globals{' to ' + ' / '.join(want_val[kw]) if want_val.get(kw) else ''}", ok, f"the rewriter emits the name held in `{var}` but the re-compiler does not bind it{' to the owner`s object' if st is not None else ''}: the rewritten method fails with NameError or re-enters another function")
     # literal global names the rewriter emits
     lits = set()
-    in_fstring = {id(x) for js in ast.walk(rw.node) if isinstance(js, ast.JoinedStr) for x in ast.walk(js)}
-    for n in ast.walk(rw.node):
-        if isinstance(n, ast.Constant) and isinstance(n.value, str) and id(n) not in in_fstring and n.value.startswith("__") and not n.value.endswith("__") and n.value.isupper():
-            lits.add(n.value)
+    import builtins
+
+    for m in rw.methods.values():
+        for c in ast.walk(m.node):
+            if isinstance(c, ast.Call) and call_name(c) == "ast.Name" and any(k.arg == "ctx" and "Load" in src(k.value) for k in c.keywords):
+                idv = next((k.value for k in c.keywords if k.arg == "id"), c.args[0] if c.args else None)
+                cands = []
+                if isinstance(idv, ast.Constant):
+                    cands = [idv]
+                elif isinstance(idv, ast.Name):
+                    for a in ast.walk(m.node):
+                        if isinstance(a, ast.Assign) and any(dotted(t) == idv.id for t in a.targets):
+                            cands += [x for x in ast.walk(a.value) if isinstance(x, ast.Constant) and not any(isinstance(p_, ast.JoinedStr) for p_ in [a.value])]
+                for k in cands:
+                    if isinstance(k.value, str) and k.value != "self" and not hasattr(builtins, k.value):
+                        lits.add(k.value)
     ctx.require(lits, "the rewriter no longer emits a named helper global (restructured)")
     for lit in sorted(lits):
         st = stores.get(repr(lit))
@@ -159,7 +171,21 @@ def r3_adapts_originals_for_itself(ctx):
     ctx.ob(f"{m.key}:adapted-not-stored", m.loc(), "the adapted copy goes to the dispatch table only, never into the method table other functions inherit from", not w, "an adapted copy is stored in the method table: children would inherit a method already bound to the parent")
 
 
+def r4(ctx):
+    from .c09 import copy_carries_everything
+
+    copy_carries_everything(ctx)
+
+
+def r5(ctx):
+    from .c09 import r3_each_argument_once
+
+    r3_each_argument_once(ctx)
+
+
 RULES = [
+    ("C08.R4", "P1", r4, "the adapted copy keeps defaults and closure cells (by name)"),
+    ("C08.R5", "P1", r5, "a rewritten recurse call passes exactly the arguments written, each evaluated once"),
     ("C08.R1", "P1", r1_self_references_found, "all self-references, in globals and cells, at every depth"),
     ("C08.R2", "P1", r2_synthesised_names_bound, "every synthesised name is bound and unique per function"),
     ("C08.R3", "P1", r3_adapts_originals_for_itself, "each function adapts originals for itself"),
